@@ -1,7 +1,7 @@
 /-
 Shape tie (Block): the state the model carries is exactly the state the Rust structs carry.
 `Generated/Shapes.lean` is re-read from /repo/src on every run (field names, types as written up to
-module paths and lifetimes; order is irrelevant). The model was written against the field lists below – `Model/Block.lean`: `Handler` = (maxSize, cache with its ttl); `Key` = (code byte, raw path segments, endpoint); `BlockState` = (lastBlock2, cachedResponse, cachedPayload).
+module paths and lifetimes; order is irrelevant). The model was written against the field lists below – `Model/Block.lean`: `Handler` = (maxSize, cache with its ttl); `Key` = (code byte, raw path segments, endpoint); `BlockState` = (lastBlock2, cachedResponse, cachedSzx, cachedPayload).
 A field added to, removed from or retyped in one of these structs (a memo, a marker, a digest instead
 of the data, a narrower counter) makes the corresponding `rfl` fail: the hand-written model then no
 longer accounts for all the state of the code, whatever the correspondence runs happen to explore.
@@ -20,6 +20,7 @@ theorem requestCacheKey : Shapes.requestCacheKey =
     [("path", "Vec<Vec<u8>>"), ("request_type_ord", "u8"), ("requester", "Option<Endpoint>")] := rfl
 
 theorem blockState : Shapes.blockState =
-    [("cached_request_payload", "Option<Vec<u8>>"), ("cached_response", "Option<Packet>"), ("last_request_block2", "Option<BlockValue>")] := rfl
+    [("cached_request_payload", "Option<Vec<u8>>"), ("cached_response", "Option<Packet>"),
+     ("cached_response_size_exponent", "Option<u8>"), ("last_request_block2", "Option<BlockValue>")] := rfl
 
 end CoapLite.ShapeTie
